@@ -216,7 +216,10 @@ func (e *Engine) finish(prop, tier string, rs []*FnResult, verbose bool, loadS f
 	if nProof == 0 {
 		ev.Coverage["obligations"] = 0
 	}
-	jsonWrite(filepath.Join(e.verifDir, "evidence", prop+".json"), ev)
+	if e.repo == "/repo" {
+		// (self-test runs against scratch copies must not overwrite the evidence of the real tree)
+		jsonWrite(filepath.Join(e.verifDir, "evidence", prop+".json"), ev)
+	}
 	for _, l := range knownSeen {
 		fmt.Println(l)
 	}
